@@ -192,3 +192,58 @@ def _(cx):
         sc = max(1.0, float(_np.max(_np.abs(A))))
         recon = A @ lam
         cx.prove("point_in_affine_hull_of_subset", CB(float(_np.linalg.norm(recon - _np.asarray(v, dtype=float))) / sc), tol=1e-7)
+
+
+# ---------------------------------------------------------------------------------------------- C01: recombination of closest points
+def _recombination(n):
+    @contract("gjk_jolt.calculate_closest_points[n=%d]" % n, fn="distance3d.gjk._gjk_jolt.calculate_closest_points", props=["C01"],
+              deps=["distance3d.gjk._gjk_jolt.get_barycentric_coordinates_line", "distance3d.gjk._gjk_jolt.get_barycentric_coordinates_plane"])
+    def _c(cx):
+        """simplex rows Y[i] = P[i] - Q[i] of n points: the returned pair satisfies a - b = sum_i lambda_i Y[i] with weights summing to 1
+        (so a, b are the same affine combination of the stored support points of A and B), and in the regular branches that
+        combination is the projection of the origin onto the affine hull of the simplex, i.e. |a - b| is the distance the loop
+        reports (clause |a-b| = d of C01)"""
+        f = cx.target()
+        eps2 = cx.abstract_constant("distance3d.gjk._gjk_jolt", "EPSILON_SQR")
+        eps = cx.abstract_constant("distance3d.gjk._gjk_jolt", "EPSILON")
+        ynames = ["y%d" % i for i in range(n)]
+        pnames = ["p%d" % i for i in range(n)]
+        vs = vectors(cx, ynames + pnames, rank3=False)
+        Y, P = vs[:n], vs[n:]
+        Q = [P[i] - Y[i] for i in range(n)]
+        if cx.mode == "sym":
+            pad = [Y[0]] * (4 - n)
+            Yr, Pr, Qr = gram.AbsRows(Y + pad), gram.AbsRows(P + pad), gram.AbsRows(Q + pad)
+        else:
+            Yr = np.ascontiguousarray(np.array(list(Y) + [np.zeros(3)] * (4 - n)))
+            Pr = np.ascontiguousarray(np.array(list(P) + [np.zeros(3)] * (4 - n)))
+            Qr = np.ascontiguousarray(np.array(list(Q) + [np.zeros(3)] * (4 - n)))
+        a, b = cx.call(f, Yr, Pr, Qr, n)
+        diff = a - b
+        if cx.mode == "sym":
+            cx.prove("difference_is_combination_of_Y", bool(gram.has_only(diff, set(ynames))))
+            lam = [gram.coefficient(diff, nm) for nm in ynames]
+            cx.prove("weights_sum_to_1", cx.eq(sum(lam, 0.0), 1.0))
+            for i in range(n):
+                cx.prove("a_uses_same_weight[%d]" % i, cx.eq(gram.coefficient(a, pnames[i]), lam[i]))
+            # regular simplex: the combination is orthogonal to every edge direction (projection of the origin onto the affine hull)
+            if n == 2:
+                reg = sq(Y[1] - Y[0]) >= eps2
+            elif n == 3:
+                from d3vc.vecops import cross
+                reg = sq(cross(Y[1] - Y[0], Y[2] - Y[0])) >= eps
+            else:
+                reg = True
+            if n >= 2 and bool(reg):
+                for i in range(1, n):
+                    cx.prove("orthogonal_to_edge[%d]" % i, cx.eq(dot(diff, Y[i] - Y[0]), 0.0))
+        else:
+            A = np.array(Y).T
+            lam, *_ = np.linalg.lstsq(np.vstack([A, np.ones(n)]), np.append(diff, 1.0), rcond=None)
+            sc = max(1.0, float(np.max(np.abs(A))))
+            cx.prove("difference_is_combination_of_Y", CB(float(np.linalg.norm(A @ lam - diff)) / sc), tol=1e-7)
+        cx.cover("end")
+
+
+for _n in (1, 2, 3):
+    _recombination(_n)
